@@ -2,62 +2,281 @@
 
 Correspondence: real `makrel.get_attr(v, num)` under the RNG recorder (tails injected) against the Lean
 `Attr.getAttr`, in both argument orders of the gaussian clip (the harness determines which one the code
-matches).  Oracle: documented bounds per form, every documented form accepted for every num >= 1."""
-import math, importlib
+matches).  Oracle: documented bounds per form, every documented form accepted for every num >= 1.
+
+Every specification is deep-copied before the call and judged against the pristine copy (an implementation that
+sorts / rewrites the caller's list or mapping in place cannot make the oracle agree with its own output); a share
+of the cases hands the *same* specification object to `get_attr` a second time and judges that call as well."""
+import math, importlib, copy
 import numpy as np
 from .common import Driver, F, I, L, OPT, unF, RngRecorder, close
 from . import ibmrun
 
-RULE = ("every attribute form (scalar; list of length num; [low, high]; gaussian with/without min/max; exponential "
-        "with/without max; piecewise; callable; dotted name) x num in {1,2,3,5,17} x parameter grids; draws recorded with "
-        "+-8 sigma normals, exponentials of 40x the mean, u=0 and u=1-2^-53 injected. Non-trivial: every case.")
-ASSUMPTIONS = ["scipy InterpolatedUnivariateSpline(k=1) is modelled as linear interpolation (checked to 1e-12 on every run)"]
+RULE = ("every attribute form (scalar incl. numpy scalars; list of length num with integral, fractional (uniform(-50,50), 0.5, -0.0, "
+        "1e-12, 1e9+0.5) or int elements; [low, high] with integral, fractional or int ends; gaussian with/without min/max; "
+        "exponential with/without max; piecewise with/without the documented optional key `degree` in {1,2,3}; callable "
+        "(lambda returning an array, lambda returning a list, callable object); dotted name with one dot (numpy.arange) and with "
+        "two dots (a recording probe function of this module)) x num in {1,2,3,5,17} x parameter grids (float and int typed "
+        "parameters as in release.yaml; std in {0, 0.1, 1, 2.5, 10, 1e3}; gaussian mean up to 1e6 and negative; exponential mean in "
+        "{0, 0.01, 1, 5, 10, 1e6}; bounds 0 / 0.0 / negative; knots in (0,100), (-100,100) or distinct ints, flat first piece) x "
+        "containers (list / tuple / ndarray for lists and ranges); draws recorded with +-8 sigma normals, exponentials of 40x the "
+        "mean, u=0 and u=1-2^-53 injected (also when the code asks numpy's random_sample / random / standard_normal / "
+        "standard_exponential); 30% of the cases call get_attr twice with the same specification object; piecewise knots probed "
+        "with a constant u = cdf_k (num 3) and with a different cdf_k per particle (num in {1,2,3,5,17}). Non-trivial: every case.")
+ASSUMPTIONS = ["scipy InterpolatedUnivariateSpline(k=1) is modelled as linear interpolation (checked to 1e-12 on every run)",
+               "the optional piecewise key `degree` (documented in release.yaml) is not read by the code (k=1 is hard-coded); the model "
+               "is linear interpolation for every degree, and the bounds / cumulative-probability oracles are applied unchanged",
+               "tuples / numpy arrays / numpy scalars are taken as the Python-API spellings of 'list of length num', '[low, high]' "
+               "and 'scalar' (get_attr dispatches on __len__, not on the type list)"]
 SITE = "ladim_plugins/release/makrel.py::get_distribution"
+SITE_ATTR = "ladim_plugins/release/makrel.py::get_attr"
+
+KINDS = ["const", "list", "range", "gauss", "gauss_b", "gauss_lo", "gauss_hi", "exp", "exp_max", "piece", "callable", "dotted",
+         "callable_list", "callable_obj", "dotted_deep"]
+STOCHASTIC = {"range": "uniform", "piece": "rand"}
 
 
-def gen(rng, num):
-    k = rng.choice(["const", "list", "range", "gauss", "gauss_b", "gauss_lo", "gauss_hi", "exp", "exp_max", "piece", "callable", "dotted"])
+# ----------------------------------------------------------------------------- recording probes (callable / dotted name)
+PROBE_CALLS = []
+
+
+def _probe_values(size):
+    # like numpy.zeros / numpy.random.rand: the size must be an integer count (range() raises TypeError on a float)
+    return [10.0 + 0.5 * i for i in range(size)]
+
+
+def probe_count(*args, **kwargs):
+    """target of the dotted name `<this module>.probe_count` (two dots): records how it was called"""
+    PROBE_CALLS.append((args, dict(kwargs)))
+    return _probe_values(*args, **kwargs)
+
+
+class CountProbe:
+    """a callable object (no __len__) that records how it was called"""
+
+    def __init__(self):
+        self.calls = []
+
+    def __call__(self, *args, **kwargs):
+        self.calls.append((args, dict(kwargs)))
+        return np.array(_probe_values(*args, **kwargs)) - 20.0
+
+    def __deepcopy__(self, memo):
+        return self
+
+    def __repr__(self):
+        return "<callable object n -> 0.5*arange(n) - 10>"
+
+
+class Recorder(RngRecorder):
+    """RngRecorder that also serves the remaining legacy entry points of numpy's global generator, each logged under its own
+    name.  Code that switches to one of them is then reported as a draw-schedule disagreement as before, but its draws are
+    still recorded and the tails are still injected, so the oracles below keep judging it instead of holding vacuously."""
+    KINDS = RngRecorder.KINDS + ("random_sample", "random", "ranf", "sample", "standard_normal", "standard_exponential")
+
+    def _emit_as(self, kind, inj_kind, values, size):
+        values = np.asarray(values, dtype=float)
+        if self.inject is not None:
+            values = np.asarray(self.inject(inj_kind, (), values.copy()), dtype=float)
+        self.log.append((kind, (), values.shape, values.copy()))
+        return values if size is not None else float(values)
+
+    def random_sample(self, size=None):
+        return self._emit_as("random_sample", "rand", self.rs.random_sample(size), size)
+
+    def random(self, size=None):
+        return self._emit_as("random", "rand", self.rs.random_sample(size), size)
+
+    def ranf(self, size=None):
+        return self._emit_as("ranf", "rand", self.rs.random_sample(size), size)
+
+    def sample(self, size=None):
+        return self._emit_as("sample", "rand", self.rs.random_sample(size), size)
+
+    def standard_normal(self, size=None):
+        return self._emit_as("standard_normal", "randn", self.rs.standard_normal(size), size)
+
+    def standard_exponential(self, size=None):
+        return self._emit_as("standard_exponential", "exponential", self.rs.standard_exponential(size), size)
+
+
+# ----------------------------------------------------------------------------- generators
+def _container(rng, xs, tags, what):
+    """the same sequence as a list (as YAML gives it), a tuple or a numpy array (Python API)"""
+    c = rng.choice(["list", "list", "list", "tuple", "ndarray"])
+    if c == "tuple":
+        tags.append("%s.container=tuple" % what); return tuple(xs)
+    if c == "ndarray":
+        tags.append("%s.container=ndarray" % what); return np.array(xs)
+    return list(xs)
+
+
+def gen_piece(rng, tags):
+    n = rng.randrange(2, 6)
+    cdf = sorted(set([0.0, 1.0] + [round(rng.random(), 3) for _ in range(n - 2)]))
+    cdf = [c for c in cdf]
+    form = rng.choice(["pos", "pos", "signed", "int"])
+    if form == "pos":
+        knots = sorted(rng.uniform(0, 100) for _ in cdf)
+    elif form == "signed":
+        knots = sorted(rng.uniform(-100, 100) for _ in cdf); tags.append("piece.knots=signed")
+    else:
+        # release.yaml writes the knots as ints (`knots: [0, 1, 2, 3]`)
+        knots = sorted(rng.sample(range(-20, 100), len(cdf))); tags.append("piece.knots=int")
+    if rng.random() < 0.3:
+        knots[1:2] = [knots[0]]     # flat piece
+        knots = sorted(knots)
+        tags.append("piece.flat")
+    d = dict(distribution="piecewise", knots=knots, cdf=cdf)
+    if rng.random() < 0.4:
+        # documented optional key (release.yaml: "degree: 1  # (Optional) Degree of spline. Defaults to 1"); a spline of degree k
+        # needs more than k points
+        d["degree"] = rng.choice([k for k in (1, 2, 3) if k < len(cdf)])
+        tags.append("piece.degree=%d" % d["degree"])
+    return d, "4 %s %s" % (L(knots), L(cdf))
+
+
+def gen(rng, num, tags=None):
+    tags = [] if tags is None else tags
+    k = rng.choice(KINDS)
     if k == "const":
-        v = rng.choice([0, 1.5, -3.0, 7])
+        v = rng.choice([0, 1.5, -3.0, 7, np.float64(2.25), np.int64(4), -0.125, 1e9 + 0.5])
+        if isinstance(v, np.generic): tags.append("const.numpy_scalar")
         return k, v, ("0 " + F(v))
     if k == "list":
-        vs = [float(rng.randrange(-5, 50)) for _ in range(num)]
-        return k, vs, ("1 " + L(vs))
+        form = rng.choice(["integral", "fractional", "fractional", "int"])
+        if form == "integral":
+            vs = [float(rng.randrange(-5, 50)) for _ in range(num)]
+        elif form == "fractional":
+            vs = [rng.choice([0.5, -0.0, 1e-12, 1e9 + 0.5, -7.75]) if rng.random() < 0.25 else rng.uniform(-50, 50) for _ in range(num)]
+        else:
+            vs = [rng.randrange(-5, 50) for _ in range(num)]
+        tags.append("list.%s" % form)
+        return k, _container(rng, vs, tags, "list"), ("1 " + L(vs))
     if k == "range":
-        lo = rng.choice([0.0, -5.0, 10.0]); hi = lo + rng.choice([0.0, 1.0, 25.0])
-        return k, [lo, hi], ("1 " + L([lo, hi]))
+        form = rng.choice(["float", "float", "int"])
+        if form == "float":
+            # (hi - lo is exact for every combination, so lo + (hi - lo) * u <= hi holds in rounded arithmetic for u < 1)
+            lo = rng.choice([0.0, -5.0, 10.0, 0.25, -2.5]); hi = lo + rng.choice([0.0, 1.0, 25.0, 0.5, 1e-3])
+        else:
+            lo = rng.choice([0, -5, 10]); hi = lo + rng.choice([0, 1, 25])    # `depth: [0, 10]`
+        if float(lo) != int(lo) or float(hi) != int(hi): tags.append("range.fractional")
+        tags.append("range.%s" % form)
+        return k, _container(rng, [lo, hi], tags, "range"), ("1 " + L([lo, hi]))
     if k.startswith("gauss"):
-        mean = rng.choice([0.0, 5.0, 40.0]); std = rng.choice([1.0, 10.0, 0.1])
+        if rng.random() < 0.3:
+            # int-typed parameters, as every example of release.yaml writes them (mean: 5, std: 1, min: 4, max: 6)
+            mean = rng.choice([0, 5, 40]); std = rng.choice([1, 10, 3, 0]); klo = rng.choice([1, 3]); khi = rng.choice([1, 3])
+            tags.append("gauss.int_params")
+        else:
+            mean = rng.choice([0.0, 5.0, 40.0, -12.5, 1e6]); std = rng.choice([1.0, 10.0, 0.1, 0.0, 2.5, 1e3])
+            klo = rng.choice([1.0, 0.5, 3.0]); khi = rng.choice([1.0, 0.25, 3.0])
+        if std == 0: tags.append("gauss.std=0")
         d = dict(distribution="gaussian", mean=mean, std=std)
         if k in ("gauss_b", "gauss_lo"):
-            d["min"] = mean - rng.choice([1.0, 0.5, 3.0]) * std
+            d["min"] = mean - klo * std
         if k in ("gauss_b", "gauss_hi"):
-            d["max"] = mean + rng.choice([1.0, 0.25, 3.0]) * std
+            d["max"] = mean + khi * std
         if rng.random() < 0.25:
             # bounds with the value zero (int or float) and negative bounds are bounds like any other
             if "max" in d: d["max"] = rng.choice([0, 0.0, -1.0]); d["mean"] = mean = rng.choice([-1.0, 0.0, 0.5])
             if "min" in d: d["min"] = rng.choice([0, 0.0]) if "max" not in d else min(d["max"], rng.choice([-3.0, -1.0]))
             if "min" in d and "max" not in d: d["mean"] = mean = rng.choice([-0.5, 0.0, 1.0])
+            if "min" in d or "max" in d: tags.append("gauss.zero_or_negative_bound")
         return k, d, "2 %s %s %s %s" % (F(mean), F(std), OPT(d.get("min")), OPT(d.get("max")))
     if k.startswith("exp"):
-        mean = rng.choice([1.0, 5.0, 10.0])
+        if rng.random() < 0.3:
+            mean = rng.choice([1, 5, 10]); tags.append("exp.int_params")      # `mean: 10`, `max: 10`
+            mx = rng.choice([2, 20, 0, 10 * mean])
+        else:
+            mean = rng.choice([1.0, 5.0, 10.0, 0.01, 0.0, 1e6])                # release.yaml: `mean: 0.01`
+            mx = rng.choice([0.5 * mean, 2.0 * mean, 10.0 * mean, 0, 0.0])
+        if mean == 0: tags.append("exp.mean=0")
         d = dict(distribution="exponential", mean=mean)
         if k == "exp_max":
-            d["max"] = rng.choice([0.5 * mean, 2.0 * mean, 10.0 * mean, 0, 0.0])
+            d["max"] = mx
         return k, d, "3 %s %s" % (F(mean), OPT(d.get("max")))
     if k == "piece":
-        n = rng.randrange(2, 6)
-        cdf = sorted(set([0.0, 1.0] + [round(rng.random(), 3) for _ in range(n - 2)]))
-        cdf = [c for c in cdf]
-        knots = sorted(rng.uniform(0, 100) for _ in cdf)
-        if rng.random() < 0.3:
-            knots[1:2] = [knots[0]]     # flat piece
-            knots = sorted(knots)
-        d = dict(distribution="piecewise", knots=knots, cdf=cdf)
-        return k, d, "4 %s %s" % (L(knots), L(cdf))
+        d, toks = gen_piece(rng, tags)
+        return k, d, toks
     if k == "callable":
         return k, (lambda n: np.arange(n) * 2.0), "5 " + L([2.0 * i for i in range(num)])
+    if k == "callable_list":
+        return k, (lambda n: [0.75 * i - 1.0 for i in range(n)]), "5 " + L([0.75 * i - 1.0 for i in range(num)])
+    if k == "callable_obj":
+        return k, CountProbe(), "5 " + L([-10.0 + 0.5 * i for i in range(num)])
+    if k == "dotted_deep":
+        # a dotted name with more than one dot: module path `harness.c04`, function `probe_count`
+        return k, __name__ + ".probe_count", "5 " + L([10.0 + 0.5 * i for i in range(num)])
     return k, "numpy.arange", "5 " + L([float(i) for i in range(num)])
+
+
+CALLABLE_WANT = {
+    "callable": lambda num: [2.0 * i for i in range(num)],
+    "callable_list": lambda num: [0.75 * i - 1.0 for i in range(num)],
+    "callable_obj": lambda num: [-10.0 + 0.5 * i for i in range(num)],
+    "dotted": lambda num: [float(i) for i in range(num)],
+    "dotted_deep": lambda num: [10.0 + 0.5 * i for i in range(num)],
+}
+CALLABLE_TEXT = {"callable": "<lambda n: arange(n)*2>", "callable_list": "<lambda n: [0.75*i - 1 for i in range(n)]>",
+                 "callable_obj": "<callable object n -> 0.5*arange(n) - 10>"}
+
+
+def is_stochastic(kind, num):
+    return not (kind in ("const", "list") or kind.startswith("callable") or kind.startswith("dotted") or (kind == "range" and num == 2))
+
+
+def expected_schedule(kind, num):
+    if not is_stochastic(kind, num):
+        return []
+    return [(STOCHASTIC.get(kind, "normal" if kind.startswith("gauss") else "exponential"), (num,))]
+
+
+def judge(ctx, kind, v, num, out, draws, cs, probe_calls=None):
+    """the oracles of the property on one call.  `v` is the pristine copy of the specification (taken before the call)."""
+    site = SITE
+    is_range = kind == "range" and num != 2
+    if kind in ("const",):
+        ctx.oracle(out == [float(v)] * num, "C04.const.repeated", site, "got %r" % out, cs)
+    elif kind == "list" or (kind == "range" and num == 2):
+        ctx.oracle(out == [float(x) for x in v], "C04.list.verbatim", site, "got %r" % out, cs)
+    elif is_range:
+        lo, hi = v
+        ctx.oracle(len(out) == num and all(lo <= x <= hi for x in out), "C04.range.in_range", site, "got %r" % out, cs)
+    elif kind.startswith("gauss"):
+        ctx.oracle(len(out) == num, "C04.gaussian.count", site, "count", cs)
+        if "min" in v:
+            # the known finding F-C04a (np.clip(minimum, maximum, r): only the upper bound is applied) explains a
+            # value below `min` only when that value is exactly min(draw, max); anything else is another defect
+            raw = [v["mean"] + v["std"] * z for z in draws]
+            expl = len(raw) == len(out) and all(x == min(r_, v.get("max", float("inf"))) for x, r_ in zip(out, raw))
+            ctx.oracle(all(x >= v["min"] for x in out), "C04.gaussian.lower_bound" if expl else "C04.gaussian.lower_bound.other", site,
+                       "min=%r but values %r (normal draws %r)" % (v["min"], [x for x in out if x < v["min"]][:3], draws[:3]), cs)
+        if "max" in v:
+            ctx.oracle(all(x <= v["max"] for x in out), "C04.gaussian.upper_bound", site, "max=%r values %r" % (v["max"], out), cs)
+        if "min" not in v and "max" not in v:
+            ctx.oracle(all(x == v["mean"] + v["std"] * z for x, z in zip(out, draws)), "C04.gaussian.unbounded_changed", site, "values changed", cs)
+    elif kind.startswith("exp"):
+        ctx.oracle(len(out) == num and all(x >= 0 for x in out), "C04.exponential.negative", site, "values %r" % out, cs)
+        if "max" in v:
+            ctx.oracle(all(x <= v["max"] for x in out), "C04.exponential.max_exceeded", site,
+                       "max=%r but values %r" % (v["max"], [x for x in out if x > v["max"]][:3]), cs)
+    elif kind == "piece":
+        k0, kn = v["knots"][0], v["knots"][-1]
+        ctx.oracle(len(out) == num and all(k0 - 1e-9 <= x <= kn + 1e-9 for x in out), "C04.piecewise.range", site, "values %r knots %r" % (out, v["knots"]), cs)
+        order = np.argsort(draws, kind="stable")
+        xs = np.array(out)[order]
+        ctx.oracle(bool(np.all(np.diff(xs) >= -1e-9)), "C04.piecewise.not_monotone", site, "not monotone in the draw", cs)
+    elif kind in CALLABLE_WANT:
+        ctx.oracle(out == CALLABLE_WANT[kind](num), "C04.callable.count", site, "got %r" % out, cs)
+        if probe_calls is not None:
+            # "callables or dotted function names receive the particle count" (release.yaml: the function "must have size as
+            # its sole argument"): one call, one positional argument, no keywords, and the argument is the count itself — an
+            # integer equal to num (numpy.zeros / numpy.random.rand and the like reject a float size)
+            ok = len(probe_calls) == 1 and len(probe_calls[0][0]) == 1 and not probe_calls[0][1] \
+                and isinstance(probe_calls[0][0][0], (int, np.integer)) and not isinstance(probe_calls[0][0][0], bool) \
+                and probe_calls[0][0][0] == num
+            ctx.oracle(ok, "C04.callable.argument", SITE_ATTR, "function called as %r, particle count %d" % (probe_calls, num), cs)
 
 
 def run(ctx):
@@ -67,81 +286,81 @@ def run(ctx):
         drv.available = False
     pend = []
     variant_votes = {0: 0, 1: 0}
-    for c in range(ctx.n(1200, 20000)):
-        num = ctx.rng.choice([1, 2, 3, 5, 17])
-        kind, v, toks = gen(ctx.rng, num)
-        cs = dict(kind=kind, spec=(v if not callable(v) else "<lambda n: arange(n)*2>"), num=num)
-        ctx.case(key=(kind, repr(cs["spec"]), num), nontrivial=True, sample=cs if c < 3 else None)
-        ctx.branch(kind); ctx.branch("num=%d" % num)
+
+    def one_call(v, v0, kind, num, toks, cs, second):
+        """one call of get_attr on the specification object `v`; judged against the pristine copy `v0`"""
         inj = ibmrun.tail_injector(ctx.rng, 0.25)
+        del PROBE_CALLS[:]
+        if isinstance(v, CountProbe): del v.calls[:]
         try:
-            with RngRecorder(ctx.sub_seed(), inj) as rec:
+            with Recorder(ctx.sub_seed(), inj) as rec:
                 out = mk.get_attr(v, num)
             out = [float(x) for x in out]
         except Exception as e:
-            ctx.oracle(False, "C04.%s.rejected" % kind.split("_")[0], "ladim_plugins/release/makrel.py::get_attr",
-                       "documented form %r raised %r for num=%d" % (cs["spec"], e, num), cs)
-            continue
-        site = SITE
+            ctx.oracle(False, "C04.%s.rejected" % kind.split("_")[0], SITE_ATTR,
+                       "documented form %r raised %r for num=%d%s" % (cs["spec"], e, num, " (second call with the same specification object)" if second else ""), cs)
+            return False
         draws = rec.log[0][3].tolist() if rec.log else []
-        cs["draws"] = draws; cs["out"] = out
-        is_range = kind == "range" and num != 2
-        if kind in ("const",):
-            ctx.oracle(out == [float(v)] * num, "C04.const.repeated", site, "got %r" % out, cs)
-        elif kind == "list" or (kind == "range" and num == 2):
-            ctx.oracle(out == [float(x) for x in v], "C04.list.verbatim", site, "got %r" % out, cs)
-        elif is_range:
-            lo, hi = v
-            ctx.oracle(len(out) == num and all(lo <= x <= hi for x in out), "C04.range.in_range", site, "got %r" % out, cs)
-        elif kind.startswith("gauss"):
-            ctx.oracle(len(out) == num, "C04.gaussian.count", site, "count", cs)
-            if "min" in v:
-                # the known finding F-C04a (np.clip(minimum, maximum, r): only the upper bound is applied) explains a
-                # value below `min` only when that value is exactly min(draw, max); anything else is another defect
-                raw = [v["mean"] + v["std"] * z for z in draws]
-                expl = len(raw) == len(out) and all(x == min(r_, v.get("max", float("inf"))) for x, r_ in zip(out, raw))
-                ctx.oracle(all(x >= v["min"] for x in out), "C04.gaussian.lower_bound" if expl else "C04.gaussian.lower_bound.other", site,
-                           "min=%r but values %r (normal draws %r)" % (v["min"], [x for x in out if x < v["min"]][:3], draws[:3]), cs)
-            if "max" in v:
-                ctx.oracle(all(x <= v["max"] for x in out), "C04.gaussian.upper_bound", site, "max=%r values %r" % (v["max"], out), cs)
-            if "min" not in v and "max" not in v:
-                ctx.oracle(all(x == v["mean"] + v["std"] * z for x, z in zip(out, draws)), "C04.gaussian.unbounded_changed", site, "values changed", cs)
-        elif kind.startswith("exp"):
-            ctx.oracle(len(out) == num and all(x >= 0 for x in out), "C04.exponential.negative", site, "values %r" % out, cs)
-            if "max" in v:
-                ctx.oracle(all(x <= v["max"] for x in out), "C04.exponential.max_exceeded", site,
-                           "max=%r but values %r" % (v["max"], [x for x in out if x > v["max"]][:3]), cs)
-        elif kind == "piece":
-            k0, kn = v["knots"][0], v["knots"][-1]
-            ctx.oracle(len(out) == num and all(k0 - 1e-9 <= x <= kn + 1e-9 for x in out), "C04.piecewise.range", site, "values %r knots %r" % (out, v["knots"]), cs)
-            order = np.argsort(draws, kind="stable")
-            xs = np.array(out)[order]
-            ctx.oracle(bool(np.all(np.diff(xs) >= -1e-9)), "C04.piecewise.not_monotone", site, "not monotone in the draw", cs)
-        elif kind in ("callable", "dotted"):
-            want = [2.0 * i for i in range(num)] if kind == "callable" else [float(i) for i in range(num)]
-            ctx.oracle(out == want, "C04.callable.count", site, "got %r" % out, cs)
+        cs = dict(cs, draws=draws, out=out)
+        if second: cs["second_call_with_same_object"] = True
+        probe_calls = list(PROBE_CALLS) if kind == "dotted_deep" else (list(v.calls) if kind == "callable_obj" else None)
+        judge(ctx, kind, v0, num, out, draws, cs, probe_calls)
+        exp_sched = expected_schedule(kind, num)
         # model
         if drv.available:
-            exp_sched = [] if kind in ("const", "list", "callable", "dotted") or (kind == "range" and num == 2) else \
-                [({"range": "uniform", "piece": "rand"}.get(kind, "normal" if kind.startswith("gauss") else "exponential"), (num,))]
             if rec.schedule() != exp_sched:
                 ctx.disagreement("get_attr.draw_schedule", "model declares %r, implementation requested %r" % (exp_sched, rec.schedule()), cs)
-                continue
+                return True
             ctx.schedule_matches += 1
             a = drv.ask("attr.get", "0", toks, I(num), L(draws))
             b = drv.ask("attr.get", "1", toks, I(num), L(draws))
             pend.append((a, b, out, kind, cs))
+        elif exp_sched and len(draws) != num:
+            # without the model there is no schedule comparison; draws that bypass the recorder cannot be steered into the tails
+            ctx.disagreement("get_attr.draws_unobserved", "a stochastic form drew %d values through the recorded numpy entry points, expected %d" % (len(draws), num), cs)
+        return True
+
+    for c in range(ctx.n(1500, 25000)):
+        num = ctx.rng.choice([1, 2, 3, 5, 17])
+        tags = []
+        kind, v, toks = gen(ctx.rng, num, tags)
+        v0 = copy.deepcopy(v)       # judged against this copy, never against the object the implementation had in its hands
+        cs = dict(kind=kind, spec=(v0 if not callable(v0) else CALLABLE_TEXT[kind]), num=num)
+        ctx.case(key=(kind, repr(cs["spec"]), num), nontrivial=True, sample=cs if c < 3 else None)
+        ctx.branch(kind); ctx.branch("num=%d" % num)
+        for t in tags: ctx.branch(t)
+        if not one_call(v, v0, kind, num, toks, cs, False):
+            continue
+        if ctx.rng.random() < 0.3:
+            # the same specification object once more (a config mapping is reused between groups / calls): every documented form
+            # is accepted and honoured again
+            ctx.case(key=(kind, repr(cs["spec"]), num, "second"), nontrivial=True); ctx.branch("second_call_same_object")
+            one_call(v, v0, kind, num, toks, cs, True)
     # piecewise: P(v <= knot_k) = cdf_k  (exact check through the inverse: value at u = cdf_k is knot_k)
     for c in range(ctx.n(100, 1000)):
-        _, v, _ = gen(ctx.rng, 3)
-        while not (isinstance(v, dict) and v.get("distribution") == "piecewise"):
-            _, v, _ = gen(ctx.rng, 3)
+        v, _ = gen_piece(ctx.rng, [])
         for ck, kk in zip(v["cdf"][:-1], v["knots"][:-1]):
             with RngRecorder(0, lambda kind, p, arr, _c=ck: np.full(arr.shape, _c)):
                 out = mk.get_attr(v, 3)
             ctx.case(key=("piece_knot", repr(v), ck), nontrivial=True); ctx.branch("piecewise.knot")
             ctx.oracle(all(close(x, kk, 1e-9, 1e-9) for x in out), "C04.piecewise.cdf_knots", SITE,
                        "u=cdf=%r should give knot %r, got %r" % (ck, kk, out), dict(spec=v))
+    # the same per particle: particle i draws u_i = cdf_{k_i} (a different knot for each particle, in random order) and must get
+    # knot_{k_i} (tolerance as above: the spline evaluation is not exact at the knots)
+    for c in range(ctx.n(150, 1500)):
+        tags = []
+        v, _ = gen_piece(ctx.rng, tags)
+        v0 = copy.deepcopy(v)
+        num = ctx.rng.choice([1, 2, 3, 5, 17])
+        ks = [ctx.rng.randrange(len(v0["cdf"]) - 1) for _ in range(num)]
+        us = np.array([v0["cdf"][k] for k in ks], dtype=float)
+        with Recorder(0, lambda kind, p, arr, _u=us: (_u.reshape(arr.shape) if arr.size == _u.size else np.full(arr.shape, _u[0]))) as rec:
+            out = [float(x) for x in mk.get_attr(v, num)]
+        ctx.case(key=("piece_knot_mixed", repr(v0), tuple(ks)), nontrivial=True); ctx.branch("piecewise.knot_per_particle")
+        for t in tags: ctx.branch("knot_per_particle." + t)
+        want = [v0["knots"][k] for k in ks]
+        ctx.oracle(len(out) == num and all(close(x, w, 1e-9, 1e-9) for x, w in zip(out, want)), "C04.piecewise.cdf_knots", SITE,
+                   "particle i draws u_i = cdf[k_i] (k = %r): expected knots %r, got %r" % (ks, want, out), dict(spec=v0, num=num, draws=us.tolist(), out=out))
     if drv.available:
         rep = drv.run()
         results = []
